@@ -903,13 +903,9 @@ pub(crate) fn eval_query(ctx: &Context, expr: &Query) -> Result<QueryReply, Quer
                     )))
                 }
             };
-            let (exact, approx) = top.numeric_value(base, digits);
-            let parts = NumberParts {
-                raw_value: Some(top.clone()),
-                exact_value: exact,
-                approx_value: approx,
-                ..top.to_parts(ctx)
-            };
+            // The numeral and the unit have to come from the same
+            // (prettified) number.
+            let parts = top.to_parts_digits(ctx, base, digits);
             Ok(QueryReply::Conversion(Box::new(ConversionReply {
                 value: parts,
             })))
